@@ -1,6 +1,8 @@
 //! C15: a real (unstarted) event loop whose turns the harness thread makes, virtual clock, tasks that
 //! block in the *hooked* nanosleep / yield / return.
-//! body: `<max> <step_ms> ; task task …`   task = Z<ms> (hooked nanosleep) | Y<k> (k plain yields) | R,
+//! body: `<max> <step_ms> ; task task …`   task = Z<ms> (hooked nanosleep) | Y<k> (k plain yields) | R |
+//!   V<arrive_ms>x<ms> (hooked recv on an empty socket whose peer writes when the clock reaches arrive_ms, then a
+//!   hooked nanosleep of ms),
 //!   each optionally `@<ms>`: submitted only when the clock has reached that many ms (default 0)
 //! Protocol: turn; advance the clock by step_ms; … until every task is done (or 400 turns).
 //! out: `fin=<id>:<ms since start at which the task finished>,…` (by id; `-` = never)
@@ -18,6 +20,13 @@ pub fn gen(r: &mut Rng, thorough: bool) -> String {
     let step = *r.pick(&[1u64, 2, 5, 10]);
     let mut tasks = Vec::new();
     let common = step * r.range(1, 8);
+    if r.chance(1, 6) {
+        // one receiver among tasks that use no timers: when the byte arrives nobody else polls the selector,
+        // so the time at which the receiver continues is determined by its own 10 ms slices and the turn
+        tasks.push(format!("V{}x{}", step * r.range(1, 9), step * r.range(2, 8)));
+        for _ in 1..n.min(max) { tasks.push(if r.chance(1, 2) { "R".to_string() } else { format!("Y{}", r.range(1, 4)) }); }
+        return format!("{max} {step} ; {}", tasks.join(" "));
+    }
     for _ in 0..n {
         let t = match r.below(8) {
             0 => "R".to_string(),
@@ -44,17 +53,35 @@ pub fn exec(body: &str, emit: &mut dyn FnMut(&str)) {
     let tasks: Vec<(String, u64)> = tasks.split_whitespace().map(|t| match t.split_once('@') { Some((a, b)) => (a.to_string(), b.parse().unwrap_or(0)), None => (t.to_string(), 0) }).collect();
     for _ in 0..tasks.len() { fin.borrow_mut().push(None); }
     let mut submitted = vec![false; tasks.len()];
+    // receivers: a socket pair each, (peer fd, arrival time, written?)
+    let mut peers: Vec<Option<(i32, i32, u64, bool)>> = tasks.iter().map(|(t, _)| {
+        if let Some(rest) = t.strip_prefix('V') {
+            let arrive: u64 = rest.split('x').next().unwrap().parse().unwrap();
+            let mut sv = [0i32; 2];
+            unsafe { libc::socketpair(libc::AF_UNIX, libc::SOCK_STREAM, 0, sv.as_mut_ptr()); }
+            Some((sv[0], sv[1], arrive, false))
+        } else { None }
+    }).collect();
+    let fds: Vec<i32> = peers.iter().map(|p| p.map_or(-1, |x| x.0)).collect();
     let submit_due = |lp: &VLoop, now_ms: u64, submitted: &mut Vec<bool>| {
         for (i, (t, at)) in tasks.iter().enumerate() {
             if submitted[i] || *at > now_ms { continue; }
             submitted[i] = true;
             let t = t.clone();
             let log = fin.clone();
+            let fds = fds.clone();
             lp.submit_task(Some(format!("sl{i}")), move |_| {
                 let (h, rest) = t.split_at(1);
                 match h {
                     "Z" => {
                         let ms: u64 = rest.parse().unwrap();
+                        let ts = libc::timespec { tv_sec: (ms / 1000) as i64, tv_nsec: ((ms % 1000) * 1_000_000) as i64 };
+                        let _ = open_coroutine_core::syscall::nanosleep(None, &ts, std::ptr::null_mut());
+                    }
+                    "V" => {
+                        let ms: u64 = rest.split('x').nth(1).unwrap().parse().unwrap();
+                        let mut b = [0u8; 4];
+                        let _ = open_coroutine_core::syscall::recv(None, fds[i], b.as_mut_ptr().cast(), 4, 0);
                         let ts = libc::timespec { tv_sec: (ms / 1000) as i64, tv_nsec: ((ms % 1000) * 1_000_000) as i64 };
                         let _ = open_coroutine_core::syscall::nanosleep(None, &ts, std::ptr::null_mut());
                     }
@@ -69,6 +96,9 @@ pub fn exec(body: &str, emit: &mut dyn FnMut(&str)) {
     let mut now_ms = 0u64;
     for _ in 0..400 {
         submit_due(&lp, now_ms, &mut submitted);
+        for p in peers.iter_mut().flatten() {
+            if !p.3 && p.2 <= now_ms { p.3 = true; let b = [7u8]; unsafe { libc::write(p.1, b.as_ptr().cast(), 1); } }
+        }
         let _ = lp.turn(Duration::from_nanos(1000));
         if fin.borrow().iter().all(|x| x.is_some()) { break; }
         let _ = verif::advance_virtual_now(step * 1_000_000);
